@@ -93,10 +93,23 @@ where
     #[allow(clippy::needless_continue)]
     fn poll_next(self: Pin<&mut Self>, cx: &mut Context<'_>) -> Poll<Option<Self::Item>> {
         let fair_queue = self.get_mut();
+        // Keys of the streams that returned `Pending` during this call.
+        let mut pending_keys: Vec<K> = Vec::new();
         loop {
             let (event, mut io_stream) = {
                 let mut inner = fair_queue.inner.lock();
                 inner.waker = Some(cx.waker().clone());
+                if let Some(next) = inner.ready_queue.peek() {
+                    if pending_keys.contains(&next.key) {
+                        // This stream already returned `Pending` during this call and has
+                        // been woken again since. It may have woken itself to yield to the
+                        // executor (e.g. tokio's cooperative budget is exhausted): polling
+                        // it again right away could spin here forever. Keep the event and
+                        // yield instead.
+                        cx.waker().wake_by_ref();
+                        return Poll::Pending;
+                    }
+                }
                 let event = match inner.ready_queue.pop() {
                     Some(s) => s,
                     None => {
@@ -138,6 +151,7 @@ where
                 }
                 Poll::Pending => {
                     let mut inner = fair_queue.inner.lock();
+                    pending_keys.push(event.key.clone());
                     inner.streams.insert(event.key, io_stream);
                     continue;
                 }
